@@ -58,25 +58,42 @@ def point (j : Json) : Except String Json := do
   | .error _ => pure ()
   return Json.mkObj out
 
-def firstOp (d : Document) : Except String (List VarDef × SelectionSet) :=
+def firstOp (d : Document) : Except String (OpType × List VarDef × SelectionSet) :=
   match d.operations with
-  | .operation _ _ vars _ sel _ :: _ => pure (vars, sel)
+  | .operation op _ vars _ sel _ :: _ => pure (op, vars, sel)
   | _ => throw "no operation"
 
-def firstField (sel : SelectionSet) : Except String (String × List Argument) :=
+def firstField (sel : SelectionSet) : Except String (String × List Argument × Option SelectionSet) :=
   match sel.sels with
-  | .field _ n args _ _ _ :: _ => pure (n.value, args)
+  | .field _ n args _ sub _ :: _ => pure (n.value, args, sub)
   | _ => throw "first selection is not a field"
+
+/-- the field whose arguments are observed: the first root field, or — when that is the list field `items` — the
+first field selected under it (the same planned field is then resolved once per item) -/
+def observedField (s : Schema) (root : String) (sel : SelectionSet) : Except String (List ArgDef × List Argument) := do
+  let (fname, asts, sub) ← firstField sel
+  let fd ← match (s.objectFields root).find? (fun f => f.name == fname) with
+    | some f => pure f
+    | none => throw s!"no field {fname} on {root}"
+  if fname == "items" then
+    match sub with
+    | some sub =>
+      let (iname, iasts, _) ← firstField sub
+      match (s.objectFields fd.type.namedName).find? (fun f => f.name == iname) with
+      | some f => pure (f.args, iasts)
+      | none => throw s!"no field {iname} on {fd.type.namedName}"
+    | none => throw "items without selection"
+  else pure (fd.args, asts)
 
 def exec (j : Json) : Except String Json := do
   let s ← decSchema (← j.getObjVal? "schema")
   let doc ← Driver.AstJson.decDocument (← j.getObjVal? "doc")
   let inputs ← decVars j "inputs"
-  let (vdefs, sel) ← firstOp doc
-  let (fname, asts) ← firstField sel
-  let argDefs ← match (s.objectFields s.query).find? (fun f => f.name == fname) with
-    | some f => pure f.args
-    | none => throw s!"no field {fname} on the query type"
+  let (op, vdefs, sel) ← firstOp doc
+  let root ← match s.rootFor op.toString with
+    | some r => pure r
+    | none => throw s!"schema has no {op.toString} root"
+  let (argDefs, asts) ← observedField s root sel
   -- M
   let mvars := getVariableValues s vdefs inputs
   -- S: every variable coerced by the specification
